@@ -35,6 +35,10 @@ UNITS = [
           functions=[["p_ini_file_sections", "pp_ini_file_prepend_copy"], ["p_ini_file_keys", "pp_ini_file_prepend_copy"], ["p_ini_file_parameter_string", "pp_ini_file_find_parameter"], ["p_ini_file_parameter_list", "pp_ini_file_append_copy", "pp_ini_file_find_parameter"]][g],
           bound="fixed parsed object: one section, one key, value '{a b}'", replay={"driver": "C18_replay.c", "mode": "ini_getter%d" % g, "args": []}) for g in range(4)] + [
     U("tree_new", "h_tree_new", "misc2.c", ["ptree.c", "ptree-bst.c", "ptree-rb.c", "ptree-avl.c"], defines=["UNIT_TREE_NEW"], canaries=2, functions=["p_tree_new_full", "p_tree_free"], cbmc_flags=["--unwind", "4", "--unwinding-assertions", "--object-bits", "10"]),
+] + [dict(id="ht_listing_allocfail_%d" % w, harness="../C15/ht.c", entry="h_listing_allocfail", sources=["phashtable.c", "plist.c"], enforce=None, replace=[], defines=["LIST_WHICH=%d" % w, "L=3"], canaries=2, timeout=600,
+          functions=[fn, "p_list_append", "p_list_free"], cbmc_flags=["--unwinding-assertions", "--object-bits", "10", "--unwind", "6"],
+          bound="a table object of 2 buckets holding at most 3 entries in any distribution; every list-node allocation may fail independently")
+     for w, fn in enumerate(("p_hash_table_keys", "p_hash_table_values", "p_hash_table_lookup_by_value"))] + [
     U("hash_table_new", "h_ht_new", "misc2.c", ["phashtable.c", "plist.c"], defines=["UNIT_HT_NEW"], canaries=2, functions=["p_hash_table_new", "p_hash_table_free"],
       cbmc_flags=["--unwindset", "p_hash_table_free.0:2,p_hash_table_free.1:102", "--unwinding-assertions", "--object-bits", "10"], timeout=300, bound="bucket loop of p_hash_table_free unwound to the fixed table size 101, chain loop once (the table is empty): complete, unwinding assertions on"),
     U("time_profiler_new", "h_profiler", "misc2.c", ["ptimeprofiler.c"], defines=["UNIT_PROFILER"], canaries=2, functions=["p_time_profiler_new", "p_time_profiler_free", "p_time_profiler_reset"], cbmc_flags=[]),
